@@ -154,19 +154,20 @@ PROPS["C03"] = dict(
                   dict(harness="bitset", build="plain", runs=300, offset=6000000, valgrind=True, workers=8, wall_cap=1200)],
     ),
     rule=("a case is one seeded history (1-40 operations) over three owning bitsets and two view handles onto two caller-owned block arrays (dirty contents, guard blocks on both sides) "
-          "of one block type x allocator configuration, each with a std::vector<bool> model; an owner actor also writes viewed bits directly. Sizes are biased to 0, w-1, w, w+1, k*w, k*w+r; shift amounts to 0, <w, w, k*w, k*w+r, >=size. "
+          "of one block type x allocator configuration, each with a std::vector<bool> model; an owner actor also writes viewed bits directly. Sizes are biased to 0, w-1, w, w+1, k*w, k*w+r; shift amounts to 0, <w, w, k*w, k*w+r, >=size; a 'big_shift' step shifts a temporary owner or view of more than 2^w blocks (8-bit blocks always, 16-bit blocks in one of eight cases; about 40 blocks for wider types) by amounts around 2^w blocks. "
           "After every step every bitset and view is compared with its model through operator[], const/non-const/reverse iteration, count/any/all/none, block_count, the raw blocks read through data() "
           "(so unused bits must be zero), == against a freshly built equal bitset and != against one differing in one bit; caller memory outside the viewed blocks must be untouched. "
           "Non-trivial: at least two state-changing steps and, when the plan attaches allocation failures, at least one delivered. Distinct: distinct run digests."),
     probes=["grow", "grow_with_true_across_partial_block", "resize_to_zero", "whole_block_shift", "shift_ge_size", "whole_bitset_op_on_empty", "at_in_slack_of_last_block",
             "owner_write_behind_view", "view_constructed_over_dirty_memory", "view_handle_copied", "write_through_reverse_iterator", "compared_equal",
-            "recovered_after_allocation_failure", "allocation_failure_in_resize", "allocation_failure_in_push_back"],
+            "recovered_after_allocation_failure", "allocation_failure_in_resize", "allocation_failure_in_push_back",
+            "shift_over_more_than_2^w_blocks_possible", "shift_skips_2^w_blocks_or_more"],
     components=dict(real=["include/xtl/xdynamic_bitset.hpp (xdynamic_bitset with std::allocator and a custom allocator, xdynamic_bitset_view, xbitset_reference, xbitset_iterator)", "include/xtl/xspan_impl.hpp (as the view's storage)"],
                     stub=["std::vector<bool> reference model", "FailingAllocator (k-th allocation of a step fails)", "caller-owned block arrays with guard blocks and seeded dirty contents", "owner actor writing viewed memory directly"]),
     assumptions=["copying or assigning a view copies the handle; view.resize(n) is legal only for n == size() and throws otherwise (as the code defines them)",
                  "moved-from bitsets are unspecified and are given a definite value again inside the same step",
                  "&=, |=, ^= and the binary operators are only applied to operands of equal size; set/reset/flip(pos) only with pos < size()",
-                 "the property does not speak about allocation failure: after a delivered bad_alloc the only requirement kept is that the object can be assigned to and destroyed; its value is then re-established by the harness"],
+                 "the property does not speak about allocation failure: after a delivered bad_alloc in resize, push_back, reserve, assign the object must still be canonical (unused bits zero, block_count() == ceil(size()/w), count() consistent - all stated by the property without exception), which value it has is not asked; after a failed (defaulted, member-wise) copy assignment only assignability and destructibility are required; the value is then re-established by the harness"],
 )
 
 PROPS["C05"] = dict(
